@@ -56,6 +56,10 @@ def observe(spec):
     from thejoker.thejoker import TheJoker
 
     data, prior, _ = K.build_problem(spec)
+    if isinstance(data, list) and spec.get("pt_seed", 0) % 3 != 0:
+        # multi-survey data handed over as a dict (named surveys, or integer labels that are not 0..n): same surveys, same order
+        keys = (["alpha", "beta", "gamma", "delta"] if spec["pt_seed"] % 3 == 1 else [10, 20, 30, 40])[: len(data)]
+        data = dict(zip(keys, data))
     du = u.Unit(spec["data_unit"])
     r = np.random.default_rng(spec["pt_seed"])
     names = lin_names(spec)
